@@ -28,13 +28,13 @@ from urllib.parse import urlparse
 from vf import core, recgen
 
 THEOREMS = [
-    "C05_generated_facts", "C05_coerce_sound_partial", "C05_refuted_boolean_fraction", "C05_refuted_uint_fraction",
-    "C05_refuted_digest_text", "C05_invariant", "C05_invariant_blank", "C05_invariant_refuted",
-    "C05_failed_op_is_noop", "C05_none_is_always_accepted", "C05_rejects_unrepresentable",
-    "C05_rejects_uint16_out_of_range", "C05_rejects_uint32_out_of_range", "C05_rejects_boolean_other_integer",
-    "C05_rejects_non_bytes", "C05_rejects_malformed_digest", "C05_rejects_address_out_of_range",
-    "C05_accepts_representable", "C05_conversions", "C05_serialisable_partial", "C05_refuted_lone_surrogate",
-    "C05_list_elements", "C05_list_bad_element_rejects_all", "C05_hyp_satisfiable",
+    "C05_generated_facts", "C05_coerce_sound", "C05_rejects_fractions", "C05_without_boolean_fix",
+    "C05_without_uint_fix", "C05_without_digest_fix", "C05_invariant", "C05_invariant_blank",
+    "C05_invariant_former_witness", "C05_failed_op_is_noop", "C05_none_is_always_accepted",
+    "C05_rejects_unrepresentable", "C05_rejects_uint16_out_of_range", "C05_rejects_uint32_out_of_range",
+    "C05_rejects_boolean_other_integer", "C05_rejects_non_bytes", "C05_rejects_malformed_digest",
+    "C05_rejects_address_out_of_range", "C05_accepts_representable", "C05_conversions", "C05_serialisable_partial",
+    "C05_refuted_lone_surrogate", "C05_list_elements", "C05_list_bad_element_rejects_all", "C05_hyp_satisfiable",
 ]
 
 UTC = pydt.timezone.utc
@@ -169,6 +169,34 @@ class Enc:
         self.keep.append(inst)
         return inst
 
+    def register(self, inst, tn, payload):
+        """an instance of the class of field type tn that exists already (read from a record's field)"""
+        self.typed[id(inst)] = (tn, payload)
+        self.keep.append(inst)
+        return inst
+
+    def same_class(self, c, tn):
+        """does an instance of field type c pass isinstance(<class of tn>) in the model (instance_of / dynamic)"""
+        if tn.endswith("[]") or c.endswith("[]"):
+            return c == tn
+        return TYPE_MAP[c] == TYPE_MAP[tn] or (TYPE_MAP[c], TYPE_MAP[tn]) == ("TUri", "TString") or tn == "dynamic"
+
+    def lowered(self, o):
+        """the builtin value an instance of another field-type class behaves as (model: Coerce.lower)"""
+        from flow.record import fieldtypes as ft
+        if isinstance(o, ft.string):
+            b, lone = text_enc(str.__str__(o))
+            return "(PStr %s %s)" % (cB(b), cbool(lone))
+        if isinstance(o, (ft.varint, ft.uint16, ft.uint32, ft.boolean)):
+            return "(PInt %s)" % cZ(int(o))
+        if isinstance(o, ft.bytes):
+            return "(PBytes %s)" % cB(bytes(o))
+        if isinstance(o, ft.datetime):
+            return "(PDatetime %s %s)" % (cwall(o), copt(off_us(o), cZ))
+        if isinstance(o, ft.path):
+            return "(PPath %s %s)" % (cbool(isinstance(o, pathlib.PureWindowsPath)), cB(text_enc(str(o))[0]))
+        raise ValueError("no builtin form for %r" % type(o))
+
     # ---- candidate values
     def pv(self, v):
         from flow.record import Record
@@ -218,6 +246,16 @@ class Enc:
         if id(v) in self.typed:
             t2, payload = self.typed[id(v)]
             self.oracle(payload, t2)
+            if not self.same_class(t2, tn) and not tn.endswith("[]") and tn != "record":
+                # an instance of another class: the constructor sees the builtin value it extends; only str()
+                # is asked of the instance itself
+                low = self.lowered(v)
+                for n in NEEDS[TYPE_MAP[tn]]:
+                    key = self.pv(v) if n == "str" else low
+                    if key not in self.tables[n]:
+                        ans = getattr(self, "o_" + n)(v)
+                        if ans is not None:
+                            self.tables[n][key] = ans
             return
         if tn.endswith("[]"):
             et = tn[:-2]
@@ -256,7 +294,7 @@ class Enc:
         return "(%s, %s)" % (cB(b), cbool(lone))
 
     def o_int(self, v):
-        if type(v) in (str, bytes):
+        if isinstance(v, (str, bytes)):
             try:
                 return copt(int(v), cZ)
             except ValueError:
@@ -264,7 +302,7 @@ class Enc:
         return None
 
     def o_float(self, v):
-        if type(v) in (str, bytes, int):
+        if isinstance(v, (str, bytes, int)):
             try:
                 return "(Some %d%%N)" % float_bits(float(v))
             except (ValueError, OverflowError):
@@ -421,6 +459,49 @@ class World:
         self.rec_a = self.inner_a(n=1, s="x", _generated=T0)
         self.rec_b = self.inner_b(flag=True, _generated=T0)
         self.cache = {}
+        # values taken from the fields of another record: already field-type instances, of OTHER types
+        src_fields = [("varint", "size", 70000), ("varint", "small", 80), ("varint", "neg", -2), ("filesize", "fsize", 2048),
+                      ("string", "name", "443"), ("string", "text", "abc"), ("uint32", "big", 70000), ("uint32", "u", 1),
+                      ("uint16", "port", 22), ("boolean", "flag", True), ("boolean", "off", False), ("path", "p", "/x/y"),
+                      ("datetime", "ts", pydt.datetime(2020, 1, 2, 3, 4, 5)), ("bytes", "raw", b"10.0.0.1"),
+                      ("uri", "link", "http://h/p")]
+        self.src_desc = RecordDescriptor("c05/source", [(t, n) for t, n, _ in src_fields])
+        self.src = self.src_desc(_generated=T0, **{n: v for _, n, v in src_fields})
+        self.foreign = []
+        for t, n, v in src_fields:
+            self.foreign.append((t, n, self.enc.register(getattr(self.src, n), t, v)))
+
+    def foreign_cands(self, tn):
+        """candidates for a slot (or element) of scalar type tn that are field-type values of another type"""
+        out = []
+        if tn in ("record", "stringlist", "dictlist"):
+            return out
+        for t, n, inst in self.foreign:
+            if self.enc.same_class(t, tn):
+                continue
+            probe = Cand("probe", self._plain(inst))
+            self.classify(tn, probe)
+            c = Cand("foreign_%s_%s" % (t.replace(".", "_"), n), inst, probe.expect, probe.classes)
+            out.append(c)
+        return out
+
+    @staticmethod
+    def _plain(inst):
+        """the builtin value of a field-type instance (for the expectations only)"""
+        from flow.record import fieldtypes as ft
+        if isinstance(inst, ft.boolean):
+            return int(inst)
+        if isinstance(inst, int):
+            return int(inst)
+        if isinstance(inst, str):
+            return str.__str__(inst) + ""
+        if isinstance(inst, bytes):
+            return bytes(inst)
+        if isinstance(inst, pydt.datetime):
+            return pydt.datetime(inst.year, inst.month, inst.day, inst.hour, inst.minute, inst.second, inst.microsecond, inst.tzinfo)
+        if isinstance(inst, pathlib.PurePath):
+            return pathlib.PurePosixPath(str(inst))
+        return inst
 
     def common(self):
         """wrong-kind pool shared by all types (fresh containers on every call)"""
@@ -453,6 +534,7 @@ class World:
             return [Cand("float_zero", 0.0), Cand("float_above_one", 1.5, R), Cand("float_two", 2.0, R),
                     Cand("float_just_below_one", 0.9999999999999999, R), Cand("float_tiny", 5e-324, R),
                     Cand("int_huge", 10 ** 30, R), Cand("int_neg_huge", -(10 ** 30), R), Cand("int_3", 3, R),
+                    Cand("int_neg2", -2, R), Cand("float_neg_one", -1.0, R), Cand("float_neg_tiny", -5e-324, R),
                     Cand("str_one", "1"), Cand("str_true", "true"), Cand("bytes_one", b"1"),
                     Cand("instance", e.instance("boolean", True), A), Cand("instance_false", e.instance("boolean", 0), A)]
         if tn in ("varint", "filesize", "unix_file_mode"):
@@ -568,7 +650,7 @@ class World:
             cands = self.specific(tn) + self.common()
         for c in cands:
             self.classify(tn, c)
-        return cands
+        return cands + self.foreign_cands(tn)
 
     def classify(self, tn, c):
         v = c.value
@@ -577,8 +659,8 @@ class World:
         if tn in UINTS and isinstance(v, (int, float)) and not (isinstance(v, float) and math.isnan(v)) and c.expect is None:
             if not (0 <= v <= UINTS[tn]):
                 c.expect = "reject"
-        if tn in UINTS and isinstance(v, float) and math.isnan(v):
-            c.expect = "reject"
+        if tn in UINTS and isinstance(v, float) and (math.isnan(v) or (not math.isinf(v) and v != math.floor(v))):
+            c.expect = "reject"            # a non-integral value is not an unsigned integer
         if tn == "boolean" and isinstance(v, (int, float)) and c.expect is None:
             c.expect = "accept" if (v == 0 or v == 1) and not isinstance(v, float) else ("reject" if not (v == 0 or v == 1) else None)
         if tn == "boolean" and isinstance(v, float) and 0 < v < 1:
@@ -1201,7 +1283,11 @@ def search(ctx, reason):
             return True
         world = World()
         names = all_typenames()
-        cases = single_cases(world, names) + random_cases(world, names, random.Random(ctx.seed), 150)
+        # the repaired defects first (fixed: e636926, f4497f4, b7afec5), then everything else
+        probes = [Case([tn], False, [("construct", {}), ("set", 0, (tn, kind))], "former-finding")
+                  for tn, kind in (("boolean", "float_fraction_in_0_1"), ("uint16", "float_fraction"), ("uint32", "float_fraction"),
+                                   ("digest", "str_hex"))]
+        cases = probes + single_cases(world, names) + random_cases(world, names, random.Random(ctx.seed), 150)
         for case in cases:
             term, problems, steps = execute(world, case)
             for p in problems:
@@ -1236,7 +1322,7 @@ def run(ctx):
         "bytes, binascii.a2b_hex on ASCII hex text, the generated __init__ (defaults for T[] and digest; the setattr loop of "
         "keyword-named descriptors has none) and Record._replace",
         "candidates that are instances of a field-type class are generated only for the slot's own class or a subclass",
-        "uint16(True) keeps True as packed value: accepted as well typed (bool is an int; True == 1)",
+        "uint16(True) / uint16(5.0) are accepted and stored as the integers 1 / 5 (conversion on the way in)",
         "net.ipv4.Address / net.ipv4.Subnet (deprecated, outside the anchored files) are not covered",
     ]
     if not ok:
